@@ -32,8 +32,10 @@ def Count(arr, n):
 _named = {}
 
 
-def named_array(j, body, bound):
-    """Array term A (or F(bound...) when the body mentions enclosing quantifier variables) with A[q] == body(q)."""
+def named_array(j, body, bound, count=False):
+    """Array term A (or F(bound...) when the body mentions enclosing quantifier variables) with A[q] == body(q).
+    count=True (the body is ite(c, 1, 0)): the instance  forall n. 0 <= SumA(A, n) <= max(n, 0)  of lemma SUM/count-bounds
+    (contracts/lemmas.py, proved by induction on every run) is attached to the array."""
     V = list(bound)
     # canonical names for the abstracted variables, so that structurally equal bodies get the same key
     canon = [z3.Const('$v%d' % i, v.sort()) for i, v in enumerate(V)] + [z3.Int('$q')]
@@ -52,8 +54,13 @@ def named_array(j, body, bound):
             q = z3.Int('sq!%d' % k)
             ax = z3.ForAll([q], z3.Select(a, q) == z3.substitute(body, (j, q)), patterns=[z3.Select(a, q)])
             mk = lambda vs: a
-        _named[key] = (mk, lam, ax, sym)
-    return _named[key][0](V)
+        _named[key] = [mk, lam, ax, sym, False, (qs if V else []), ]
+    ent = _named[key]
+    if count and not ent[4]:
+        n = z3.Int('sn!%d' % len(_named)); A = ent[0](ent[5]) if ent[5] else ent[0]([])
+        cb = z3.And(0 <= SumA(A, n), SumA(A, n) <= z3.If(n > 0, n, z3.IntVal(0)))
+        ent[2] = z3.And(ent[2], z3.ForAll(ent[5] + [n], cb, patterns=[SumA(A, n)])); ent[4] = True
+    return ent[0](V)
 
 
 _sym_cache = {}
@@ -99,8 +106,8 @@ def axioms_for(syms, sealed=()):
     out = []
     if 'SumA' in syms: out += SUM_AXIOMS[:3]
     if 'SumR' in syms: out += SUM_AXIOMS[3:]
-    for mk, lam, ax, sym in _named.values():
-        if sym in syms: out.append(ax)
+    for ent in _named.values():
+        if ent[3] in syms: out.append(ent[2])
     for F, ax, sym, name in _opaque.values():
         if sym in syms and name not in sealed: out.append(ax)      # sealed: the predicate stays an atom in this function
     return out
